@@ -7,25 +7,25 @@ HERE = os.path.dirname(os.path.dirname(os.path.abspath(__file__)))
 # id -> (category, technique, level text, level note, design ref)
 CLAIMED = {
  "C05": ("exploration", "deterministic simulation with fault injection: seeded search over schedules, read/write segmentations and connection faults; per-connection exactly-once/in-order oracle over wire taps vs recv history",
-         "Whole library on a simulated runtime: a receiving socket of each fair-queue type with 1..4 scripted senders; every run draws its own scheduler policy, pipe capacities, chunking, yields, delivery delays, late joins, closes, mid-message cuts and resets. Also real sockets as senders, the fair-queue component simulation, and peers that rejoin under their identity. Oracle at quiescence: recv results attributed by tag equal, in order and frame by frame, the complete messages an independent RFC-23 decoder finds on each connection's tap. One open known finding (identity collision on overlapping rejoin) is listed in known_findings.json with its replay. Sampling, not proof.",
+         "Whole library on a simulated runtime: a receiving socket of each fair-queue type with 1..4 scripted senders; every run draws its own scheduler policy, pipe capacities, chunking, yields, delivery delays, late joins, closes, mid-message cuts and resets. Also real sockets as senders, the fair-queue component simulation, and peers that rejoin under their identity. Oracle at quiescence: recv results attributed by tag equal, in order and frame by frame, the complete messages an independent RFC-23 decoder finds on each connection's tap. One open known finding (identity collision on overlapping rejoin) is listed in known_findings.json with its replay. Sampling, not proof. Messages may end in empty frames; on ROUTER and DEALER the application answers between its recv calls in half of the runs.",
          "Trusts the simulated transport to behave like an ordered reliable byte stream, the independent reference codec, and that task interleavings at await points plus reactor events at mutex boundaries cover the relevant schedules.", "5/C05, B1"),
  "C06": ("exploration", "deterministic simulation of the real fair queue with scripted streams: seeded search over interleavings of arrivals, wakes, inserts, closes and receiver polls, including events inside the window where poll_next holds no lock; lost-wake-up and bounded-overtaking oracles at quiescence",
          "L1: the private fair queue driven through the FairQueueProbe hook; foreign events land between polls, inside stream polls and at every lock/unlock of the queue's mutex. Oracles: at quiescence the receiver may not be parked un-woken while an inserted stream holds an item; with deep queues no ready peer waits for more than 2n+2 (+1 per injected spurious wake) foreign deliveries. Streams and transports may also run out of cooperative budget inside a poll (Pending + immediate or deferred self-wake for the rest of the poll, as tokio's): the poll must return to the executor, not spin (clauses spins_when_stream_yields / spins_when_transport_yields; found and repaired F21). L2: whole library, nobody parked in recv while a complete message is undelivered. Sampling, not proof.",
          "Trusts that every access to the queue's shared state goes through its parking_lot mutex (so lock boundaries are the only interleaving points), and the waker contract modelled by the scripted streams (fired at most once per registration).", "5/C06, 3.9, B2, B3"),
  "C07": ("exploration", "deterministic simulation: REQ and REP sockets against scripted peers and each other under seeded segmentation and scheduling; envelope algebra checked on wire taps and at the API",
-         "REP fed requests with 0..3 routing frames, delimiter and 1..4 payload frames from the boundary grid (empty frames inside), plus single-frame and delimiter-last forms; REQ against a scripted REP; REQ against REP. Oracles: REQ wire = delimiter + payload, REQ recv = reply minus the delimiter, REP recv = frames after the first delimiter, REP wire = saved prefix + delimiter + reply, never a zero-frame message.",
+         "REP fed requests with 0..3 routing frames, delimiter and 1..4 payload frames from the boundary grid (empty frames inside), plus single-frame and delimiter-last forms; REQ against a scripted REP; REQ against REP. Oracles: REQ wire = delimiter + payload, REQ recv = reply minus the delimiter, REP recv = frames after the first delimiter, REP wire = saved prefix + delimiter + reply, never a zero-frame message. Also: one request in five left unanswered before the next recv; req_partner_gone = REQ with 2..3 partners of which one goes away, envelopes checked on every partner's connection.",
          "Payload space sampled over a length grid; requests with no delimiter at all are outside the statement.", "5/C07"),
  "C08": ("exploration", "deterministic simulation: every call sequence over {send, recv} up to length 6 on REQ and on REP compared call by call with a reference state machine, and seeded schedules of 1..4 concurrent clients with replies attributed by tag and by connection tap",
          "All 126 sequences are enumerated (undisturbed, then under random transport and schedules); an illegal call must fail, hand the message back intact, leave every tap unchanged and not disturb the next legal call. Concurrency: real and scripted REQ clients against one REP; each reply must appear on the connection its request arrived on.",
          "Sequence space exhaustive to length 6; schedules sampled. REP recv while a request is held is not judged. Beyond the undisturbed enumeration REP partners slip malformed requests into their pipelines: a rejected request must not move the lock-step state.", "5/C08"),
  "C14": ("fault_enumeration", "deterministic simulation with cancellation faults: recv futures dropped after k polls (k = 0..5) at sampled byte-arrival positions for every receiving socket type; delivery oracle of C05 plus REQ protocol-state oracle",
-         "Every fair-queue socket type with up to 24 abandoned recv calls per run while tagged messages arrive under random segmentation; the concatenation of completed recvs must still be exactly-once/in-order/whole. REQ: after an abandoned recv a further send must be refused with the message intact and nothing on the wire, and the next completed recv must return the reply to the outstanding request.",
+         "Every fair-queue socket type with up to 24 abandoned recv calls per run while tagged messages arrive under random segmentation; the concatenation of completed recvs must still be exactly-once/in-order/whole. REQ: after an abandoned recv a further send must be refused with the message intact and nothing on the wire, and the next completed recv must return the reply to the outstanding request. Also release_after_abandoned_recv (closed peers are still released, SUB still usable) and rep_owed_reply (REP's owed reply survives an abandoned recv).",
          "Cancellation = dropping the future, as select!/timeout/proxy do. Poll budgets enumerated 0..5; arrival positions sampled.", "5/C14"),
  "C01": ("exploration", "deterministic simulation: messages over a boundary grid of frame lengths pushed through real sockets of every kind under seeded write/read segmentation and back-pressure; wire taps decoded by an independent RFC-23 codec and compared byte-exactly with its encoder",
-         "Every pair of grid lengths {0,1,2,254,255,256,257,8191,8192,8193,65535,65536,131071,131072,131073} and every single length, for 8 emitting and 7 receiving socket kinds, plus drawn shapes up to several MiB; greeting and READY of all 9 socket types x identity {none,1,255} x {accepting, connecting}. The property's own quantifier is over inputs; the simulator adds transport segmentation and the tap oracle, and nothing more is claimed.",
+         "Every pair of grid lengths {0,1,2,254,255,256,257,8191,8192,8193,65535,65536,131071,131072,131073} and every single length, for 8 emitting and 7 receiving socket kinds, plus drawn shapes up to several MiB; greeting and READY of all 9 socket types x identity {none,1,255} x {accepting, connecting}. The property's own quantifier is over inputs; the simulator adds transport segmentation and the tap oracle, and nothing more is claimed. Also: messages of 6..300 frames; READY for every identity length 0..255; wire_out_backlog = encoding into a connection buffer that still holds unflushed bytes (slow subscribers).",
          "Input space enumerated over the grid only; trusts the independent reference codec.", "5/C01"),
  "C02": ("exploration", "deterministic simulation with exact control of read boundaries: the same byte stream is fed to real sockets under enumerated and seeded partitions (all 2^15 partitions of a 16-byte suffix, single cuts, cut pairs, byte-at-a-time, block-aligned) and compared with the reference decode of the concatenation",
-         "A scripted peer releases chunk i+1 only once the reader has drained chunk i and the simulation is idle, so the executed partition is exactly the planned one. Includes data in the same segment as the end of the handshake. Receiving kinds PULL, DEALER, SUB, ROUTER, XPUB, REP, REQ.",
+         "A scripted peer releases chunk i+1 only once the reader has drained chunk i and the simulation is idle, so the executed partition is exactly the planned one. Includes data in the same segment as the end of the handshake. Receiving kinds PULL, DEALER, SUB, ROUTER, XPUB, REP, REQ. READY may be in the long command form (values up to 700 bytes, Identity 225..255 bytes).",
          "Thorough tier enumerates 3 x 2^15 partitions completely; longer streams are sampled.", "5/C02"),
  "C03": ("exploration", "deterministic simulation with hostile-peer fault injection: structure-aware attack catalogue, exhaustive short strings over a reduced alphabet and random mutations at every handshake stage for every socket type; oracles: panic capture in every task and API call, worker-process survival (stack overflow/abort seen as signals), counting allocator, healthy second connection keeps working",
          "31 attacks (incl. huge declared frames of which up to 1 MiB is really delivered) x 3 stages x 9 socket types (undisturbed, then under drawn transport/schedule), all 19607 strings <= 5 over {00,01,02,04,06,05,ff} after greeting and after handshake (thorough), random mutations of valid streams. Largest single allocation after the first hostile byte must stay <= 256 KiB + 64 x bytes sent.",
@@ -40,28 +40,28 @@ CLAIMED = {
          "A successful send must have written the complete message to exactly one admitted peer by the time it returns; n consecutive sends over a stable set of n peers reach n distinct peers; with no peer the send fails, hands the message back intact and writes nothing.",
          "During the judged sends nobody departs; membership from Accepted events resp. completed connect calls. rr_connect stratum: the socket dials harness listeners, some appearing late, so connect() retries with back-off on the virtual clock; in one case in three a peer departs after the judged sends and, once a send has failed on it, sends must succeed and rotate strictly over the rest.", "5/C10, B4"),
  "C11": ("exploration", "deterministic simulation: every subscription history up to length 4 over 9 operations enumerated for PUB and XPUB, longer seeded histories with 1..3 subscribers; publisher probes all first frames at quiescent points; subscriber taps compared with a multiset-prefix reference model",
-         "Operations: subscribe/unsubscribe x topics {'', a, ab, b} and garbage (multi-frame, bad first byte, empty). A probe must reach a subscriber exactly once iff a multiset element is a prefix of its first frame. XPUB: recv returns every subscriber message verbatim, per-connection order (interleaving check).",
+         "Operations: subscribe/unsubscribe x topics {'', a, ab, b} and garbage (multi-frame, bad first byte, empty). A probe must reach a subscriber exactly once iff a multiset element is a prefix of its first frame. XPUB: recv returns every subscriber message verbatim, per-connection order (interleaving check). Also a non-UTF-8 topic alphabet, probe messages of one to three frames, and a successor connection (possibly under the same announced identity, possibly overlapping) that must inherit nothing.",
          "Compared only at quiescent points; subscribers accept every write.", "5/C11, B5"),
  "C12": ("fault_enumeration", "deterministic simulation with back-pressure faults: stall patterns on subscriber pipes (accept k bytes then stall, stall/resume, never drain, broken pipe, co-operative yields) enumerated against message sizes around the 128 KiB mark; publisher completion, healthy-subscriber completeness, ordered-subsequence-prefix oracle on victim taps, counting allocator for the memory bound",
-         "PUB and XPUB. Every send must complete while the victim is still stalled; the subscriber that accepts every write receives every message in order; each victim tap is a byte prefix of the encoding of an order-preserving subsequence; heap growth while publishing 50..149 further messages to a stalled subscriber is bounded independently of their number.",
+         "PUB and XPUB. Every send must complete while the victim is still stalled; the subscriber that accepts every write receives every message in order; each victim tap is a byte prefix of the encoding of an order-preserving subsequence; heap growth while publishing 50..149 further messages to a stalled subscriber is bounded independently of their number. Messages of one, two and three frames; memory_world also with a subscriber whose writes fail or who has closed while the application never calls recv.",
          "'Accepts every write' = its pipe never answers Pending. Memory bound 2 x (128 KiB + message) + 64 KiB.", "5/C12, B6"),
  "C13": ("exploration", "deterministic simulation with connection faults: seeded histories of subscribe/unsubscribe interleaved with publishers joining by accept (background handshake, concurrent with later calls) and by connect, enumerated join points, one publisher failing; per-publisher folded topic counts compared at quiescence",
-         "Every connected publisher's view of the subscription set must be identical and, for histories without duplicate subscribes, equal to the socket's set; a failing peer must not keep the others from being updated.",
+         "Every connected publisher's view of the subscription set must be identical and, for histories without duplicate subscribes, equal to the socket's set; a failing peer must not keep the others from being updated. Strata rejoin (a publisher comes back under its announced identity) and rejoin_in_flight (the open finding 11.5 in its SUB form, one masked clause).",
          "With duplicate subscribes only agreement is required.", "5/C13, B5"),
  "C15": ("exploration", "deterministic simulation: REQ clients - ROUTER | proxy() | DEALER - REP workers with a capture socket, real and scripted endpoints, seeded schedules, segmentation and select! order; verbatim/exactly-once/ordered forwarding checked on front, back and capture connection taps",
          "Every request reaches a worker exactly once as identity + delimiter + payload verbatim, every reply reaches exactly its client, the capture sink gets one copy of every forwarded message in per-client order, proxy() keeps running.",
          "Clients/workers do not depart; pipe capacities stay above the largest message (mutual back-pressure deadlock of proxy() is flow control, outside the statement). Second stratum proxy_dealer_world: DEALER clients pipelining delimiter-less messages (single-frame included) to DEALER echo workers.", "5/C15"),
  "C16": ("fault_enumeration", "deterministic simulation with connection faults enumerated over every byte offset of the victim's stream x {orderly close, reset, read error, write error} x 9 socket types with live bystanders, plus connect/disconnect churn; clause-keyed oracles on recv history, taps and connection release",
-         "Clauses: others_affected, more_than_one_error, routed_to_failed_peer, sends_keep_failing, not_released, dead_connections_accumulate, hang, no_quiescence. Strata cut_world, cut_world_connect, rejoin_same_identity (departure and rejoin under the same identity at four timings), churn.",
+         "Clauses: others_affected, more_than_one_error, routed_to_failed_peer, sends_keep_failing, not_released, dead_connections_accumulate, hang, no_quiescence. Strata cut_world, cut_world_connect, rejoin_same_identity (departure and rejoin under the same identity at four timings), churn. Also idle_release (silence after the fault, every later recv abandoned) and l1_closed_reports (component simulation: every ended stream reported closed exactly once).",
          "'Released' is asserted only after the socket has been polled to quiescence after the fault; TCP half-close is not injected.", "5/C16, B7"),
  "C17": ("fault_enumeration", "deterministic simulation: the 432-cell grid socket type x transport x history prefix x {close, drop} executed in the simulated network and file namespaces through the real bind/accept/close code, repeated under seeded schedules and an injected unlink failure",
-         "At close() return (resp. at quiescence after drop): no listener left and fresh connects refused, IPC socket file removed, every peer connection closed by the socket, no library-spawned task alive, close() reports an injected unlink failure.",
+         "At close() return (resp. at quiescence after drop): no listener left and fresh connects refused, IPC socket file removed, every peer connection closed by the socket, no library-spawned task alive, close() reports an injected unlink failure. Variants: second bound endpoint, monitor installed, subscription made, backlogged subscribers, a crowd of 120..180 pending handshakes at teardown.",
          "Ports and socket files are the simulator's; kernel and tokio-gated glue lines are not exercised.", "5/C17"),
  "C18": ("exploration", "deterministic simulation: seeded operation sequences over bind (tcp v4/v6/localhost port 0, fixed port, ipc, duplicate, unresolvable), unbind (bound/unknown), connect-in and message exchange, checked after every operation against a reference model of the bind set in the simulated namespaces",
          "Return values, binds(), listener set, socket files, connectability of returned endpoints, isolation of unbind, survival of established connections. unbind of an endpoint that is not bound is tried with far and near misses (wildcard-port form of a bound endpoint, next port, other host spelling, unspecified address, longer ipc path, endpoint unbound earlier).",
          "Namespaces are simulated; 'localhost' resolves to 127.0.0.1.", "5/C18"),
  "C20": ("fault_enumeration", "deterministic simulation with handshake faults enumerated over every byte offset of greeting+READY x {stop, close, garbage} x 9 bound socket types x {tcp, ipc}, 1..3 simultaneous stallers, well-behaved clients before/during/after and an established peer",
-         "At quiescence every well-behaved client has been admitted and exchanged a message, established traffic continues, and the monitor has exactly one AcceptFailed per handshake that failed (none for silent stallers).",
+         "At quiescence every well-behaved client has been admitted and exchanged a message, established traffic continues, and the monitor has exactly one AcceptFailed per handshake that failed (none for silent stallers). Also a crowd of 100..160 simultaneous stallers, 1030..1200 clients coming and going behind the stallers, an injected accept() error, and a bound on Accepted events.",
          "REQ judged with a single well-behaved client.", "5/C20"),
 }
 NOT_YET = {}
